@@ -324,7 +324,7 @@ stepLoop:
 			ev, err := s.next(tm)
 			if err != nil {
 				hung = true
-				fail("mis", "", "step %d (%s): model says enabled, implementation did not finish the step within %v", i, stepString(st), watchdog)
+				fail("mis", "", "step %d (%s): model says enabled, implementation did not finish the step within %v (%d heartbeats) | goroutines: %s", i, stepString(st), watchdog, hangBeats, stacks())
 				break stepLoop
 			}
 			if ev.kind == 'e' {
@@ -555,6 +555,27 @@ stepLoop:
 		fail("vio", "lost-or-extra", "%d sends succeeded, %d received, %d left in the buffer", len(sentOK), len(seen), l)
 	}
 	return out
+}
+
+// stacks: where the goroutines of this process are (only those inside std/channel or blocked on a channel/lock are interesting)
+func stacks() string {
+	buf := make([]byte, 1<<16)
+	n := runtime.Stack(buf, true)
+	var keep []string
+	for _, g := range strings.Split(string(buf[:n]), "\n\n") {
+		if strings.Contains(g, "std/channel") {
+			l := strings.Split(g, "\n")
+			if len(l) > 5 {
+				l = l[:5]
+			}
+			keep = append(keep, strings.Join(l, " / "))
+		}
+	}
+	out := strings.Join(keep, " || ")
+	if len(out) > 2500 {
+		out = out[:2500]
+	}
+	return strings.ReplaceAll(out, "\t", " ")
 }
 
 func panicKind(res string) string {
